@@ -15,7 +15,7 @@ import C16  # srun decoder (independent Python port of Model/Grammar.v)
 import lockstep
 
 PID = "C10"
-GEN = ["InputCheck", "SharedRes", "CacheRes"]
+GEN = ["InputCheck", "SharedRes", "CacheRes", "Serialize", "CacheKey", "StepCtor"]
 CONE = ["Base/Dec.v", "Base/PyLib.v", "Base/Tac.v", "Proofs/DictFacts.v", "Proofs/C10Proofs.v"]
 IMPORTS = ["Base.Dec", "Base.PyLib", "Base.Show", "Gen.InputCheck", "Gen.SharedRes", "Gen.CacheRes"]
 KEYS = ["cores", "threads_per_core", "gpus_per_core", "cwd", "openmpi_oversubscribe", "slurm_cmd_args"]
@@ -243,8 +243,69 @@ def build_cases(res):
     return cases
 
 
+def file_loop_scoping(rng, n):
+    """file mode, the real execute_tasks_h5 run to completion with a launcher that - like execute_with_pysqa - removes entries from
+    the dictionary it is given: every call must still be launched with its own effective resources, and the executor-level
+    dictionary must be unchanged afterwards"""
+    import importlib
+    import os
+    import queue
+    import shutil
+    import tempfile
+    from concurrent.futures import Future
+    csh = importlib.import_module("executorlib.cache.shared")
+
+    def mk(i):
+        def fn(x):
+            return x
+        fn.__name__ = "probe%d" % i
+        return fn
+    cases = []
+    for _ in range(n):
+        exec_rd = {"cores": rng.choice([1, 1, 2]), "cwd": rng.choice(["/a", "/b", None])}
+        rds = [rng.choice([{}, {}, {"cwd": "/c"}, {"cores": 2}]) for _ in range(rng.randint(2, 4))]
+        d = tempfile.mkdtemp(prefix="verif-c10-")
+        got = []
+
+        def launcher(command, task_dependent_lst=[], resource_dict=None, config_directory=None, backend=None, cache_directory=None, **kw):
+            got.append(dict(resource_dict))
+            for k in list(resource_dict):          # what a launcher may do with its own argument
+                del resource_dict[k]
+            return object()
+        q = queue.Queue()
+        for i, rd in enumerate(rds):
+            q.put({"fn": mk(i), "args": (i,), "kwargs": {}, "future": Future(), "resource_dict": dict(rd)})
+        q.put({"shutdown": True, "wait": True})
+        passed = dict(exec_rd)
+        verdict, py = None, "Ok"
+        try:
+            csh.execute_tasks_h5(future_queue=q, cache_directory=d, execute_function=launcher, resource_dict=passed, terminate_function=None)
+        except Exception as ex:  # noqa
+            py = "Err " + type(ex).__name__
+        finally:
+            shutil.rmtree(d, ignore_errors=True)
+        if py == "Ok":
+            want = []
+            for rd in rds:
+                m = dict(exec_rd)
+                m.update(rd)
+                want.append(m)
+            if got != want:
+                k = next((j for j in range(min(len(got), len(want))) if got[j] != want[j]), len(got))
+                verdict = ("file mode: call %d of one executor (executor-level %r, per-call %r) is launched with %r, its effective "
+                           "resources are %r (the launcher of an earlier call had emptied the dictionary it was given)"
+                           % (k + 1, exec_rd, rds[k] if k < len(rds) else None, got[k] if k < len(got) else None,
+                              want[k] if k < len(want) else None))
+            elif passed != exec_rd:
+                verdict = "file mode: the executor-level resource dictionary was modified: %r -> %r" % (exec_rd, passed)
+        cases.append(("execute_tasks_h5 (launcher mutates its argument)", dict(executor=exec_rd, calls=rds), None, py, verdict))
+    return cases
+
+
 def run(res):
-    core.standard_run(res, PID, CONE, GEN, IMPORTS, build_cases,
+    def build_all(res2):
+        return build_cases(res2) + file_loop_scoping(res2.rng, 25 if res2.tier == "quick" else 250)
+    core.standard_run(res, PID, CONE, GEN, IMPORTS, build_all,
                       rule=("seeded executor-level and per-call resource dictionaries over cores / threads_per_core / gpus_per_core / cwd / "
                             "oversubscribe / slurm_cmd_args; (a) the real merging functions vs the regenerated Gallina definitions "
                             "(vm_compute), (b) key-by-key precedence oracle, (c) the real per-call executor with the srun launcher "
